@@ -85,7 +85,7 @@ def compile_batch(work, tag, cfg, mode, obs, extra_flags=()):
     """compile one TU holding obs; returns (module or None, rejected dict, log)"""
     active = list(range(len(obs)))
     rejected = {}
-    for attempt in range(6):
+    for attempt in range(12):
         sub = [obs[i] for i in active]
         src, linemap = _tu_source(cfg, sub)
         srcname = "%s_%d.cpp" % (tag, attempt)
@@ -109,7 +109,7 @@ def compile_batch(work, tag, cfg, mode, obs, extra_flags=()):
         active = [g for g in active if g not in drop]
         if not active:
             return None, [], rejected, None, cmd
-    raise tc.AnalysisBroken("TU %s still fails after 6 attribution rounds" % tag)
+    raise tc.AnalysisBroken("TU %s still fails after 12 attribution rounds" % tag)
 
 
 def run_obligations(work, obs, batch=24, second_chance=True, log=None):
